@@ -68,6 +68,22 @@ Proof.
     rewrite E. destruct (sp_drain (c_pol cf) root val pend (abs rn)) as [i c']. inversion Hs; subst. cbn [fst]. constructor.
     + unfold step_ok. cbn [fst snd]. split; [rewrite snapshot_abs; reflexivity | reflexivity].
     + apply IH; [exact Ht | apply quiet_nil; exact Hok' | constructor | cbn; lia].
+  - (* execute_single_queued_event *)
+    destruct plan; [|contradiction]. destruct pend as [|e pend].
+    + (* nothing stored *)
+      assert (E : run_m (co_drain (build cf parents false root) fuel 1) rn val [] = (rn, [])).
+      { destruct Hq as ((Hmq & _) & _). cbn [map] in Hmq.
+        rewrite (build_back cf Hbe). cbn [back_ops co_drain]. change (Nat.eqb 1 0) with false. cbn iota.
+        unfold run_m, drain_one, bind, get. rewrite Hmq. reflexivity. }
+      rewrite E. cbn [fst]. constructor.
+      * unfold step_ok. cbn [fst snd]. split; [apply snapshot_abs | reflexivity].
+      * apply IH; [exact Ht | exact Hq | exact Hu | cbn in *; lia].
+    + inversion Hu as [|? ? He Hu']; subst.
+      destruct (sim_run_m' _ rn val _ (back_drain1_q cf Hbe parents Hflat val root Hcore e pend fuel rn Hq ltac:(lia) He))
+        as (rn' & items & E & Hq' & -> & Ha).
+      rewrite E. cbn [fst]. constructor.
+      * unfold step_ok. cbn [fst snd]. split; [rewrite snapshot_abs, Ha; reflexivity | reflexivity].
+      * rewrite <- Ha. apply IH; [exact Ht | exact Hq' | exact Hu' | cbn in *; lia].
 Qed.
 End BackQueue.
 
